@@ -115,7 +115,19 @@ func writeASCIISTL(c meshCase) (string, [][3][3]float64, error) {
 	blank := s.pick(3) == 0
 	b.WriteString("solid" + name + trail + "\n")
 	var want [][3][3]float64
-	for _, f := range c.Faces {
+	// one facet in some files has its lines stretched with blanks beyond a reader's buffer (own style stream, so
+	// that the rest of the text is the same as without)
+	ps := &styler{seed: uint64(c.Style) ^ 0x5bd1e9955bd1e995}
+	padFacet, shortSep := -1, sep
+	if len(c.Faces) > 0 && ps.pick(8) == 0 {
+		padFacet = ps.pick(len(c.Faces))
+	}
+	padLen := []int{1030, 4090, 4100, 9000, 70000}[ps.pick(5)]
+	for fi, f := range c.Faces {
+		sep = shortSep
+		if fi == padFacet {
+			sep = shortSep + strings.Repeat(" ", padLen/4)
+		}
 		if blank && s.pick(2) == 0 {
 			b.WriteString(s.oneOf("\n", "  \n", "\n\n"))
 		}
@@ -175,6 +187,12 @@ func checkSTLText(c meshCase, o *kit.Obs) error {
 	if strings.Index(text, "\n") >= 512 {
 		o.Label("text:first-line>512-bytes")
 	}
+	for _, ln := range strings.Split(text, "\n")[1:] {
+		if len(ln) > 4096 {
+			o.Label("text:facet-line>4096-bytes")
+			break
+		}
+	}
 	got, err := model3d.ReadSTL(newReader([]byte(text), c.Chunk))
 	if err != nil {
 		return fmt.Errorf("ReadSTL rejects a well-formed ASCII STL file: %v\n%s", err, clipText(text))
@@ -207,14 +225,17 @@ func clipText(s string) string {
 // OFF
 
 type offCase struct {
-	Verts        []vec3       `json:"verts"`
-	Faces        [][]int      `json:"faces"` // 1, 2 (no triangles), 3 (as written) or more (convex planar polygon) indices
-	OneLine      bool         `json:"one_line"`
-	FinalNewline bool         `json:"final_newline"`
-	HeaderTrail  string       `json:"header_trail,omitempty"` // blanks after the "OFF" keyword on a line of its own
-	Edges        int          `json:"edges"`
-	Style        uint32       `json:"style"`
-	Chunk        int          `json:"chunk,omitempty"`
+	Verts        []vec3  `json:"verts"`
+	Faces        [][]int `json:"faces"` // 1, 2 (no triangles), 3 (as written) or more (convex planar polygon) indices
+	OneLine      bool    `json:"one_line"`
+	FinalNewline bool    `json:"final_newline"`
+	HeaderTrail  string  `json:"header_trail,omitempty"` // blanks after the "OFF" keyword on a line of its own
+	Edges        int     `json:"edges"`
+	Style        uint32  `json:"style"`
+	Chunk        int     `json:"chunk,omitempty"`
+	// Pad > 0: one vertex line and one face line are stretched with blanks between their tokens to about Pad
+	// bytes (lines longer than a reader's buffer are still lines)
+	Pad int `json:"pad,omitempty"`
 }
 
 // genCoord64 draws a coordinate for a float64 text format.
@@ -331,6 +352,9 @@ func genOFF(t *rapid.T) offCase {
 		c.Faces[at] = f
 	}
 	c.Edges = rapid.SampledFrom([]int{0, 0, 3 * len(c.Faces), 7}).Draw(t, "edges")
+	if rapid.IntRange(0, 7).Draw(t, "padded") == 0 {
+		c.Pad = rapid.SampledFrom([]int{300, 4090, 4096, 4100, 5000, 9000, 70000}).Draw(t, "pad")
+	}
 	return c
 }
 
@@ -389,7 +413,22 @@ func checkOFF(c offCase, o *kit.Obs) error {
 		}
 	}
 	want := make([][3]float64, len(c.Verts))
+	padV, padF := -1, -1
+	if c.Pad > 0 {
+		o.Labelf("padded-line:%d", c.Pad)
+		if len(c.Verts) > 0 {
+			padV = s.pick(len(c.Verts))
+		}
+		if len(c.Faces) > 0 {
+			padF = s.pick(len(c.Faces))
+		}
+	}
+	shortSep := sep
 	for i, v := range c.Verts {
+		sep = shortSep
+		if i == padV {
+			sep = shortSep + strings.Repeat(" ", c.Pad/3)
+		}
 		b.WriteString(lead)
 		for a, x := range v {
 			tok := numeral64(x, s)
@@ -409,6 +448,10 @@ func checkOFF(c offCase, o *kit.Obs) error {
 		b.WriteString(trail + "\n")
 	}
 	for i, f := range c.Faces {
+		sep = shortSep
+		if i == padF {
+			sep = shortSep + strings.Repeat(" ", c.Pad/(len(f)+1))
+		}
 		b.WriteString(lead + strconv.Itoa(len(f)))
 		for _, idx := range f {
 			b.WriteString(sep + strconv.Itoa(idx))
